@@ -10,7 +10,7 @@ EXPLANATION = ("In both builds of gix-tempfile (dashmap registry as unified by t
                "both cleanup functions is cut off from closure entry once the true edge of the `owning_process_id == current pid` filter is removed, and the "
                "filter closure really compares that field; (3) the value taken is the value passed to drop_without_deallocation and no Drop terminator for a "
                "ForksafeTempfile exists on the handler path; (4) Handle::persist (both typestates) removes the id from the registry before the rename closure is "
-               "even constructed and re-inserts only on the Err arm. Timing of signal arrival relative to registry mutation is not decided.")
+               "even constructed and re-inserts only on the Err arm. No guard into the registry is alive across a call of a caller-supplied closure in the Handle API (both registry configurations). Timing of signal arrival relative to registry mutation is not decided.")
 BLOCKING = re.compile(
     r"([Mm]utex::Mutex(::)?<[^>]*>::lock$|RwLock.*::(read|write)$|parking_lot.*::(lock|read|write)$|"
     r"dashmap::DashMap::<K, V, S>::(get|get_mut|entry|iter|iter_mut|remove|insert|alter|alter_all|retain|clear|shards|remove_if|view)$|"
